@@ -270,6 +270,14 @@ class SSH_Socket(ReadBuf, WriteBuf):
                 raise SSH_Socket.InsufficientReadException(e)
 
     def read_packet(self, sshv: int = 2) -> Tuple[int, bytes]:
+        '''Returns the next packet from the peer.  SSH_MSG_IGNORE and SSH_MSG_DEBUG packets, which RFC 4253 (section 11) allows a peer to send at any time after the identification strings, are skipped.'''
+        while True:
+            packet_type, payload = self.__read_packet(sshv)
+            if sshv == 2 and packet_type in (Protocol.MSG_IGNORE, Protocol.MSG_DEBUG):
+                continue
+            return packet_type, payload
+
+    def __read_packet(self, sshv: int) -> Tuple[int, bytes]:
         try:
             header = WriteBuf()
             self.ensure_read(4)
